@@ -470,6 +470,7 @@ def vectors(node, scope):
 
     scope 't': all of V5^n for n <= 2, V3^3 for n = 3 (VC^n for complex n <= 2);
     scope 'q': all of V3^n for n <= 2 (VC^1 for complex n = 1); packed vectors otherwise.
+    scope 'p': packed vectors only.
     """
     n, cplx = node.n, node.cplx
     if node.integer:
@@ -485,6 +486,8 @@ def _vectors(node, scope):
         return 'empty', [np.zeros(0)], [(0, 0)], ['()']
     small = ((not cplx and n <= 3) or (cplx and n <= 2)) if scope == 't' else \
         ((not cplx and n <= 2) or (cplx and n <= 1))
+    if scope == 'p':
+        small = False
     if small:
         V = VC if cplx else (V5 if (n <= 2 and scope == 't') else V3)
         vecs = [np.array(t, dtype=complex if cplx else float)
@@ -1085,7 +1088,12 @@ def configs(tier):
     # simplest first: by number of entries, then as generated
     seen, uniq = set(), []
     for c in cfgs:
-        c = dict(c, sc='t' if thorough else 'q')
+        # scope of the all-of-V^n visit: full in the thorough tier, except for degenerate
+        # multi-dimensional grids (shape (1, 1, 3) ...) whose 1-d twins already get it
+        sc = 't' if thorough else 'q'
+        if c['kind'] == 'discr' and len(c['shape']) > 1:
+            sc = 'q' if (thorough and len(c['shape']) == 2) else 'p'
+        c = dict(c, sc=sc)
         k = repr(sorted(c.items(), key=lambda kv: kv[0]))
         if k not in seen:
             seen.add(k)
